@@ -424,6 +424,11 @@ def observe_robust(case, kw, env, rq):
     """pristine: real robust optimisation vs the property's two inequalities"""
     from . import c17
     D = lift.Domain(theta=env)
+    if rq.get('info', {}).get('ob') in ('result_value', 'value') or 'value' in str(rq.get('name', '')):
+        # what is violated (reported value = -c.x of the nominal costs) does not depend on the parameters: the witness usually has all
+        # prices 0 (value 0 either way), so the replay runs the real robust optimisation on a seeded non-degenerate instance of the shape
+        from . import c18
+        D = lift.Domain(theta=c18.instance_env(kw['shape'], 0, 0))
     sh = shapes.build_portfolio(D, kw['shape'], **kw['kw'])
     op = sh.portf.setup_optim_problem(sh.prices, sh.tg)
     samples = c17.scenario_prices(D, sh.prices, sh.tg.T, 0, kw['S'])
